@@ -766,6 +766,21 @@ func c11Run(c *Ctx) {
 			}
 		}
 	}
+	// an output file whose NAME is the optional word of its own clause ("append"), in every keyword case and clause
+	// order, quoted and bare, with and without append mode: `outfile [append] PATH` counts operands, it does not
+	// look at what the path is called
+	if c.Shard == 0 {
+		for cs := 0; cs < 3; cs++ {
+			for ord := 0; ord < 2; ord++ {
+				sf := aSurface{By: true, Case: cs, Order: ord}
+				for _, out := range []*aOut{{`"append"`, "append", false}, {"append", "append", false}, {`"APPEND"`, "APPEND", false}, {"Append", "Append", false},
+					{`"append"`, "append", true}, {"append", "append", true}, {`"by"`, "by", false}, {`"appendix"`, "appendix", false}} {
+					c11CheckValid(c, c11Build([]aSel{c11SelItems[0]}, "t", nil, 0, 0, nil, -1, -1, out, ""), sf)
+					c11CheckValid(c, c11Build([]aSel{c11SelItems[1], c11SelItems[2]}, "", nil, 2, 1, c11Sets[4], 10, 23, out, "generickv"), sf)
+				}
+			}
+		}
+	}
 	// C: surface variations on a reduced abstract set
 	var base []*aQuery
 	for _, sel := range [][]aSel{{c11SelItems[0]}, {c11SelItems[1], c11SelItems[4]}} {
